@@ -520,7 +520,7 @@ def dec_macro(ctx):
                 pass
         return pre, list(ev)
 
-    bad = {"arm:236": None, "arm:237": None, "arm:other": None, "trailer-iff": None, "fnc1-strip": None, "eci-span": None}
+    bad = {"arm:236": None, "arm:237": None, "arm:other": None, "trailer-iff": None, "fnc1-strip": None, "eci-span": None, "eci-span:raw": None}
     utf8 = f.const("decodation::eci::ECI_UTF8") if f.const("decodation::eci::ECI_UTF8") is not None else 26
     n = 0
     try:
@@ -552,8 +552,11 @@ def dec_macro(ctx):
                         want_spans = 1 if (is_macro and not vec_empty) else 0
                         ok_span = len(spans) == want_spans and all(isinstance(x, tuple) and len(x) == 2 and x[1] == utf8 for x in spans) \
                             and (not spans or [e[0] for e in post if e[0] in ("push", "extend")][:2] == ["push", "extend"])
-                        if not ok_span and bad["eci-span"] is None:
-                            bad["eci-span"] = "first codewords %r (raw=%s, spans in use: %s): after the main loop the decoder opens the spans %r, expected %s" % (
+                        # string mode opens the header's spans itself: "no span so far" cannot be the state at the trailer then
+                        infeasible = vec_empty and any(e[0] == "push" for e in pre)
+                        skey = "eci-span:raw" if raw else "eci-span"
+                        if not ok_span and not infeasible and bad[skey] is None:
+                            bad[skey] = "first codewords %r (raw=%s, spans in use: %s): after the main loop the decoder opens the spans %r, expected %s" % (
                                 stream[:2], raw, not vec_empty, spans, "one UTF-8 span right before the trailer" if want_spans else "none")
                         got_trail = [e[1] for e in post if e[0] == "extend"]
                         if got_trail != ([TRAIL] if is_macro else []) and bad["trailer-iff"] is None:
@@ -566,7 +569,8 @@ def dec_macro(ctx):
     obs.append(Ob(r, "arm:other", bad["arm:other"] is None, "any other first codeword adds nothing", detail=bad["arm:other"]))
     obs.append(Ob(r, "trailer-iff", bad["trailer-iff"] is None, "RS EOT is appended after the loop exactly when a macro codeword was seen", detail=bad["trailer-iff"]))
     obs.append(Ob(r, "fnc1-strip", bad["fnc1-strip"] is None and f.const("encodation::ascii::FNC1") == 232, "a leading 232 (after an optional macro codeword) is stripped once, nothing else is consumed before the main loop", detail=bad["fnc1-strip"]))
-    obs.append(Ob(r, "eci-span", bad["eci-span"] is None, "when character-set spans are in use, the re-created macro trailer gets its own UTF-8 span (opened right before it), whatever the last span was; otherwise no span is opened", detail=bad["eci-span"]))
+    obs.append(Ob(r, "eci-span", bad["eci-span"] is None, "string mode: when character-set spans are in use, the re-created macro trailer gets its own UTF-8 span (opened right before it), whatever the last span was; otherwise no span is opened", detail=bad["eci-span"]))
+    obs.append(Ob(r, "eci-span:raw", bad["eci-span:raw"] is None, "raw mode: the re-created macro trailer opens a character-set span only when spans are already in use (a span makes decode_data refuse the stream)", detail=bad["eci-span:raw"]))
     obs.append(Ob(r, "scenarios", n >= 40, "%d combinations of leading codewords, raw flag and ECI-list state folded" % n))
     obs += floor(obs, r, 7, "decoder macro obligations")
     return obs
